@@ -9,7 +9,7 @@ import (
 )
 
 func init() {
-	Checks["C18"] = Check{Level: "proof", Run: runC18}
+	Checks["C18"] = Check{Level: "other", Run: runC18}
 }
 
 func runC18(r *oblig.Report) {
